@@ -22,7 +22,7 @@ def shim_path():
 def child(spec, timeout=3000):
     env = dict(os.environ)
     env["LD_PRELOAD"] = shim_path()
-    env["PYTHONPATH"] = VERIF
+    env["PYTHONPATH"] = os.environ.get("PYTHONPATH") or VERIF
     env["TENSORA_VERIF"] = "1"
     p = subprocess.run([sys.executable, "-m", "vx.hx"], input=json.dumps(spec), capture_output=True, text=True,
                        env=env, cwd=VERIF, timeout=timeout)
